@@ -214,10 +214,14 @@ impl PathTpc {
                 for (prev, curr) in link.headings.windows(2).map(|x| (&x[0], &x[1])) {
                     let length = curr.offset - prev.offset;
 
-                    let curvature = (-uc::REV / 2.0
-                        + (curr.heading - prev.heading + uc::REV / 2.0) % uc::REV)
-                        .abs()
-                        / length;
+                    // `%` keeps the sign of the dividend: bring the remainder into [0, REV)
+                    let heading_change = (curr.heading - prev.heading + uc::REV / 2.0) % uc::REV;
+                    let heading_change = if heading_change < si::Angle::ZERO {
+                        heading_change + uc::REV
+                    } else {
+                        heading_change
+                    };
+                    let curvature = (-uc::REV / 2.0 + heading_change).abs() / length;
                     let one_degree = uc::DEG / (uc::FT * 100.0);
 
                     let res_coeff = if curvature < one_degree {
